@@ -26,11 +26,11 @@ def run():
              "exh2 = every grammar with 2 non-terminals, <= 2 alternatives each, RHS <= 2 over {a,b,E,X} "
              f"({'5 % seeded sample' if quick else 'all'}); prefix = E -> P alpha_1|..|P alpha_k, alpha over {{a,b,X}} "
              "of length <= 2, P in {a, X, a b}, 5 definitions of X (plain, nullable, own prefix group, nullable "
-             f"list), optionally wrapped in S -> E b | E (k=2 all, k=3 {'10 %' if quick else 'all'}"
-             f"{'' if quick else ', k=4 5 %'}); rollback = E -> 2-3 alternatives starting with different "
-             f"non-terminals with overlapping FIRST sets x 5x5 definitions of X, Y ({'10 %' if quick else 'all'}); "
+             f"list), optionally wrapped in S -> E b | E (k=2 all, k=3 {'10 %' if quick else '60 %'}"
+             f"{'' if quick else ', k=4 3 %'}); rollback = E -> 2-3 alternatives starting with different "
+             f"non-terminals with overlapping FIRST sets x 5x5 definitions of X, Y ({'10 %' if quick else '70 %'}); "
              f"nested3 = 3 terminals, E -> a beta_i, 3-4 remainders from a prefix-closed pool "
-             f"({'3 %' if quick else '50 %'}); random = {2000 if quick else 30000} seeded grammars with <= 4 "
+             f"({'3 %' if quick else '25 %'}); random = {2000 if quick else 20000} seeded grammars with <= 4 "
              "non-terminals, <= 4 alternatives, <= 4 symbols, biased to shared prefixes and empty alternatives. "
              "evaluations = grammars + parse calls. non-trivial = grammar accepted by the constructor, >= 1 input "
              "returns a tree and >= 1 input is rejected with ParsingError",
